@@ -20,8 +20,9 @@ What is guaranteed when the ack to the job fails is stated separately (`failed_a
 snapshot is taken but the completed checkpoint record stays; nobody blocks any more, every barrier with another
 id is rejected, and only a redeploy (which the failing sender's worker triggers by exiting) starts a new epoch.
 
-Remaining exclusions: `db.Checkpoint` itself does not fail; senders are the deployed `SourceRunnerIds` and each
-issues its `HandleEventBatch` calls sequentially; a redeploy is modelled onto fresh storage (restoring DKV
+Senders `k … k+z-1` are callers that are not among the deployed `SourceRunnerIds` (runners of a previous deployment):
+they are part of every schedule quantified over (`demoZombie`). Remaining exclusions: each sender issues its
+`HandleEventBatch` calls sequentially; at least one runner is deployed (`Fresh.kpos`); a redeploy is modelled onto fresh storage (restoring DKV
 state is C06/C08).
 
 Trace vocabulary (`Proofs/Align.lean`): `procsOf obs` = the items the single consumer took, in order, with
@@ -47,17 +48,17 @@ theorem consistent_cut (s0 : St) (hf : Fresh s0) (as : List Act) (hpl : Plain as
     S = (entriesOf pre).foldl applyRec s0.kv ∧
     userOf (entriesOf pre) = userOf s0.pending ++ userProcs (procsOf pre) ∧
     ∀ sr, sr < s0.k → lastProc sr (procsOf pre) = some (Item.bar id) := by
-  obtain ⟨_, _, hcut, _⟩ := run_ok hf as hpl
+  obtain ⟨_, _, _, hcut, _⟩ := run_ok hf as hpl
   rw [h] at hcut
   simpa [Cut] using cutOK_split hcut
 
 /-- the same for a run from the initial state -/
-theorem consistent_cut_init (k b : Nat) (as : List Act) (hpl : Plain as) (pre post : List Obs) (id : Nat) (S : KVf)
+theorem consistent_cut_init (k b : Nat) (hk : 0 < k) (as : List Act) (hpl : Plain as) (pre post : List Obs) (id : Nat) (S : KVf)
     (T : Timers) (h : (run k b as).2 = pre ++ Obs.snap id S T :: post) :
     S = (entriesOf pre).foldl applyRec emptyKV ∧
     userOf (entriesOf pre) = userProcs (procsOf pre) ∧
     ∀ sr, sr < k → lastProc sr (procsOf pre) = some (Item.bar id) := by
-  have := consistent_cut (init k b) (init_fresh k b) as hpl pre post id S T h
+  have := consistent_cut (init k b) (init_fresh k b hk) as hpl pre post id S T h
   simpa [init, userOf] using this
 
 /-- **The snapshot's timers.** The timer set of checkpoint `id` is exactly the store replayed from the trace before
@@ -67,7 +68,7 @@ a sender delivered after its barrier `id` (in particular no watermark) contribut
 theorem snapshot_timers (s0 : St) (hf : Fresh s0) (as : List Act) (hpl : Plain as) (pre post : List Obs) (id : Nat)
     (S : KVf) (T : Timers) (h : (runFrom s0 [] as).2 = pre ++ Obs.snap id S T :: post) :
     T = timersOf s0.timers pre := by
-  obtain ⟨_, _, _, _, _, htok⟩ := run_ok hf as hpl
+  obtain ⟨_, _, _, _, _, _, htok⟩ := run_ok hf as hpl
   rw [h] at htok
   exact timersOK_split htok
 
@@ -87,7 +88,7 @@ theorem post_barrier_blocked (s0 : St) (hf : Fresh s0) (as : List Act) (hpl : Pl
     (sr id : Nat) (it : Item) (hsr : sr < s0.k)
     (h : (runFrom s0 [] as).2 = pre ++ Obs.reg sr id :: (mid ++ Obs.proc sr it :: post)) :
     ∃ m1 S T m2, mid = m1 ++ Obs.snap id S T :: m2 ∧ ∀ id' S' T', Obs.snap id' S' T' ∉ m1 := by
-  obtain ⟨_, _, _, hal, _⟩ := run_ok hf as hpl
+  obtain ⟨_, _, _, _, hal, _⟩ := run_ok hf as hpl
   rw [h, alignOK_append] at hal
   have hu := alignOK_uniqueKeys pre [] uniqueKeys_nil hal.1
   have h2 := hal.2
@@ -100,7 +101,7 @@ theorem delivered_sender_blocked (s0 : St) (hf : Fresh s0) (as : List Act) (hpl 
     (m : List Nat) (hc : (runFrom s0 [] as).1.ckpt = some (id, m)) (sr : Nat) (hsr : sr < s0.k) (hm : sr ∉ m) :
     lastProc sr (procsOf (runFrom s0 [] as).2) = some (Item.bar id) ∧
     ∀ it, (runFrom s0 [] as).1.slots sr ≠ some (it, true) := by
-  obtain ⟨hk, hinv, _⟩ := run_ok hf as hpl
+  obtain ⟨_, hk, hinv, _⟩ := run_ok hf as hpl
   exact (hinv.ck id m hc).2 sr (by rw [hk]; exact hsr) hm
 
 /-- **Consecutive checkpoints.** Between two snapshots of one run every sender had a fresh barrier accepted, and
@@ -110,7 +111,7 @@ theorem consecutive_checkpoints (s0 : St) (hf : Fresh s0) (as : List Act) (hpl :
     (id1 id2 : Nat) (S1 S2 : KVf) (T1 T2 : Timers)
     (h : (runFrom s0 [] as).2 = pre ++ Obs.snap id1 S1 T1 :: (mid ++ Obs.snap id2 S2 T2 :: post)) :
     ∀ sr, sr < s0.k → Obs.reg sr id2 ∈ mid := by
-  obtain ⟨_, _, _, hal, _⟩ := run_ok hf as hpl
+  obtain ⟨_, _, _, _, hal, _⟩ := run_ok hf as hpl
   rw [h, alignOK_append] at hal
   have h2 := hal.2
   simp only [alignOK] at h2
@@ -123,7 +124,7 @@ theorem consecutive_checkpoints (s0 : St) (hf : Fresh s0) (as : List Act) (hpl :
 theorem first_checkpoint (s0 : St) (hf : Fresh s0) (as : List Act) (hpl : Plain as) (pre post : List Obs)
     (id : Nat) (S : KVf) (T : Timers) (h : (runFrom s0 [] as).2 = pre ++ Obs.snap id S T :: post) :
     ∀ sr, sr < s0.k → Obs.reg sr id ∈ pre := by
-  obtain ⟨_, _, _, hal, _⟩ := run_ok hf as hpl
+  obtain ⟨_, _, _, _, hal, _⟩ := run_ok hf as hpl
   rw [h] at hal
   intro sr hsr
   rcases alignOK_fresh pre [] post hal sr hsr with hg | hreg
@@ -141,9 +142,9 @@ theorem id_mismatch_rejected (s : St) (sr id cid : Nat) (m : List Nat) (hlive : 
        [Obs.proc sr (Item.bar id), Obs.reject sr id cid]) := by
   have hv : virtCk s id = (cid, m) := by simp [virtCk, hc]
   unfold step
-  rw [if_neg (by simp [hlive]), stepLive_go_run hsr hslot]
+  rw [if_neg (by simp [hlive]), stepLive_go_run (Nat.lt_add_right _ hsr) hslot]
   simp only [process]
-  rw [barrier_reject (by rw [hv]; exact hne), hv]
+  rw [if_pos hsr, barrier_reject (by rw [hv]; exact hne), hv]
   simp only [← hc]
 
 /-- **No stranded sender.** A sender is parked only while a checkpoint is in progress that already holds its
@@ -151,7 +152,7 @@ barrier; in particular once the checkpoint is reset nobody is left waiting on `a
 theorem no_stranded_sender (s0 : St) (hf : Fresh s0) (as : List Act) (hpl : Plain as) (sr : Nat) (it : Item)
     (h : (runFrom s0 [] as).1.slots sr = some (it, false)) :
     ∃ id m, (runFrom s0 [] as).1.ckpt = some (id, m) ∧ sr ∉ m := by
-  obtain ⟨_, hinv, _⟩ := run_ok hf as hpl
+  obtain ⟨_, _, hinv, _⟩ := run_ok hf as hpl
   exact hinv.parked sr it h
 
 /-- **Cancellations are invisible.** Cancelling the context of calls in flight (clients giving up) at any points of
@@ -165,12 +166,12 @@ theorem cancellations_are_invisible (s : St) (as : List Act) :
 
 /-! ## epochs: the initial state and every redeploy start a fresh epoch -/
 
-theorem init_is_fresh (k b : Nat) : Fresh (init k b) := init_fresh k b
+theorem init_is_fresh (k b : Nat) (hk : 0 < k) : Fresh (init k b) := init_fresh k b hk
 
 /-- **Redeploy (D15 + D43).** `HandleDeploy` abandons the checkpoint of the previous deployment: afterwards no
 checkpoint is in progress and nobody is parked — the senders that were parked are reported as turned away, their
 slots are empty, so their items never reach the consumer — and the new epoch is fresh. -/
-theorem redeploy_is_fresh (s : St) (hlive : s.stopped = false) (haf : s.ackFails = false) :
+theorem redeploy_is_fresh (s : St) (hlive : s.stopped = false) (haf : s.ackFails = false) (hk : 0 < s.k) :
     Fresh (step s Act.redeploy).1 ∧
     (step s Act.redeploy).2 = [Obs.redeployed (parkedList s)] ∧
     ∀ sr it, s.slots sr = some (it, false) → (step s Act.redeploy).1.slots sr = none := by
@@ -179,7 +180,7 @@ theorem redeploy_is_fresh (s : St) (hlive : s.stopped = false) (haf : s.ackFails
     rw [if_neg (by simp [hlive])]
     rfl
   rw [hst]
-  refine ⟨⟨rfl, ?_, haf⟩, rfl, ?_⟩
+  refine ⟨⟨rfl, ?_, haf, hk⟩, rfl, ?_⟩
   · intro sr it
     simp only [redeploy]
     cases hs : s.slots sr with
@@ -200,14 +201,15 @@ the keyed events waiting in the batcher at the redeploy (`userOf s.pending`) hea
 calls of the previous deployment are still taken (`epoch_cut_counterexample`). Proved here, for any state `s` with
 any history (failed acks included) in which the job is reachable: all guarantees of `consistent_cut` hold for the
 new epoch relative to the restored (empty) state, with exactly that surviving prefix. -/
-theorem epoch_cut_partial (s : St) (hlive : s.stopped = false) (haf : s.ackFails = false) (as : List Act)
+theorem epoch_cut_partial (s : St) (hlive : s.stopped = false) (haf : s.ackFails = false) (hk : 0 < s.k)
+    (as : List Act)
     (hpl : Plain as) (pre post : List Obs) (id : Nat) (S : KVf) (T : Timers)
     (h : (runFrom (step s Act.redeploy).1 [] as).2 = pre ++ Obs.snap id S T :: post) :
     S = (entriesOf pre).foldl applyRec emptyKV ∧
     userOf (entriesOf pre) = userOf s.pending ++ userProcs (procsOf pre) ∧
     (∀ sr, sr < s.k → lastProc sr (procsOf pre) = some (Item.bar id)) ∧
     T = timersOf [] pre := by
-  obtain ⟨hfresh, _, _⟩ := redeploy_is_fresh s hlive haf
+  obtain ⟨hfresh, _, _⟩ := redeploy_is_fresh s hlive haf hk
   have hst : step s Act.redeploy = redeploy s := by
     unfold step
     rw [if_neg (by simp [hlive])]
@@ -220,10 +222,10 @@ theorem epoch_cut_partial (s : St) (hlive : s.stopped = false) (haf : s.ackFails
 /-- the full statement holds when the redeploy finds the batcher empty and no call past alignment — the exact
 condition excluded above; then every item taken in the new epoch was also handed in during it -/
 theorem epoch_cut_of_clean_redeploy (s : St) (hlive : s.stopped = false) (haf : s.ackFails = false)
-    (hempty : s.pending = []) (as : List Act) (hpl : Plain as) (pre post : List Obs) (id : Nat) (S : KVf)
+    (hk : 0 < s.k) (hempty : s.pending = []) (as : List Act) (hpl : Plain as) (pre post : List Obs) (id : Nat) (S : KVf)
     (T : Timers) (h : (runFrom (step s Act.redeploy).1 [] as).2 = pre ++ Obs.snap id S T :: post) :
     userOf (entriesOf pre) = userProcs (procsOf pre) := by
-  have := (epoch_cut_partial s hlive haf as hpl pre post id S T h).2.1
+  have := (epoch_cut_partial s hlive haf hk as hpl pre post id S T h).2.1
   simpa [hempty, userOf] using this
 
 /-- **Counterexample (D45).** Sender 0's keyed event waits in the batcher (batch size 3) when the operator is
@@ -245,9 +247,9 @@ theorem epoch_cut_counterexample :
 
 /-- with the redeploy the property asks for (`redeploySpec`: batcher emptied, every call in flight turned away) the
 new epoch starts clean: fresh, nothing pending, no call in flight -/
-theorem redeploySpec_is_clean (s : St) (haf : s.ackFails = false) :
+theorem redeploySpec_is_clean (s : St) (haf : s.ackFails = false) (hk : 0 < s.k) :
     Fresh (redeploySpec s).1 ∧ (redeploySpec s).1.pending = [] ∧ ∀ sr, (redeploySpec s).1.slots sr = none :=
-  ⟨⟨rfl, by intro sr it; simp [redeploySpec], haf⟩, rfl, fun _ => rfl⟩
+  ⟨⟨rfl, by intro sr it; simp [redeploySpec], haf, hk⟩, rfl, fun _ => rfl⟩
 
 /-- **An abandoned call is never applied.** For every schedule whatsoever (any start state, failures and redeploys
 included): once a redeploy has turned sender `sr` away (it was parked behind its barrier of the abandoned
@@ -468,5 +470,19 @@ example : (run 1 1 (demoAckFail.take 3)).1.ckpt = some (1, []) := by decide
 /-- cancellations in the middle of `demo` change no snapshot -/
 example : (snapsOf (run 2 3 (demo.take 5 ++ [.cancel 0, .cancel 1] ++ demo.drop 5)).2).map (fun x => (x.1, x.2.1 [0x61]))
     = [(1, [1, 2]), (2, [1, 2, 9])] := by decide
+
+/-- an undeployed sender (a runner of a previous deployment that is still alive; sender 2 of a deployment with
+runners 0 and 1): its event is handled like any other, it parks while a checkpoint is being aligned, and its stale
+barrier 7 starts a checkpoint record that makes the deployed runners' barrier 1 mismatch (open finding D56, C15) —
+no snapshot is wrong, the theorems above quantify over these schedules too -/
+def demoZombie : List Act :=
+  [.align 2 (.ev [0x61] 5 0), .go 2, .align 0 (.bar 1), .go 0, .align 2 (.ev [0x61] 6 0),
+   .align 1 (.bar 1), .go 1, .go 2, .align 2 (.bar 7), .go 2, .align 0 (.bar 2), .go 0]
+
+example : parkedOf (runFrom { init 2 1 with z := 1 } [] demoZombie).2 = [2] := by decide
+example : (snapsOf (runFrom { init 2 1 with z := 1 } [] demoZombie).2).map (fun x => (x.1, x.2.1 [0x61])) = [(1, [5])] := by
+  decide
+example : rejectsOf (runFrom { init 2 1 with z := 1 } [] demoZombie).2 = [(0, 2, 7)] := by decide
+example : Fresh { init 2 1 with z := 1 } := ⟨rfl, by intro sr it; simp [init], rfl, by decide⟩
 
 end Rxn.C02
